@@ -96,7 +96,7 @@ Proof. unfold get_inst. rewrite heap_with_heap, side_eqb_refl. reflexivity. Qed.
 Lemma so_expire_eq sd o s :
   so_expire cfg sd o s =
    let i := get_inst s sd o in
-   let s1 := with_heap s sd (set_nth o (i_with_vals i (map (fun _ => None) (i_vals i))) (heap (cn s sd))) in
+   let s1 := with_heap s sd (set_nth o (i_with_pending (i_with_vals i (map (fun _ => None) (i_vals i))) (no_queue (i_pending i))) (heap (cn s sd))) in
    if i_expired i then (Ret tt, s1) else
    let s2 := with_heap s1 sd (set_nth o (i_with_expired (get_inst s1 sd o) true) (heap (cn s1 sd))) in
    cache_expire cfg sd (i_id i) s2.
@@ -129,7 +129,7 @@ Lemma so_expire_step sd o s :
         (c_strong (cch s' sd) = c_strong (cch s sd) /\ c_weak (cch s' sd) = c_weak (cch s sd)))).
 Proof.
   intros Ho i. rewrite so_expire_eq. cbv zeta. fold i.
-  - set (i1 := i_with_vals i (map (fun _ => None) (i_vals i))).
+  - set (i1 := i_with_pending (i_with_vals i (map (fun _ => None) (i_vals i))) (no_queue (i_pending i))).
     set (h1 := set_nth o i1 (heap (cn s sd))).
     set (s1 := with_heap s sd h1).
     assert (G1 : get_inst s1 sd o = i1).
